@@ -1,6 +1,7 @@
 (* C07 - Clones are faithful, self-contained and independent of the original. Property theorems only. *)
 From Coq Require Import List.
-From SV Require Import Base.Base IR.State IR.NS IR.Ops Xform.Clone Proofs.CloneSmall.
+From SV Require Import Base.Base IR.State IR.NS IR.Ops Xform.Clone Proofs.CloneSmall Proofs.C01_full Proofs.CloneFrame Proofs.CloneStart.
+Import ListNotations.
 
 (* cloning a wire: one fresh element, no pins listed, nothing else changes *)
 Theorem C07_clone_wire : forall s w,
@@ -16,16 +17,52 @@ Theorem C07_clone_pin : forall s i,
 Proof. exact clone_pin_spec. Qed.
 Print Assumptions C07_clone_pin.
 
-(* Full statement for a netlist root (closed: every link of the copy resolves to ids allocated by
-   the clone; frame: no field of an older object changes). Checked on every run by the
-   correspondence of the whole three-phase clone model with the implementation and by the Clone
-   oracle (identity sets, canonical structure, well-formedness, independence under later
-   edits/uniquify/flatten); the Coq proof is not finished. *)
-Definition C07_full : Prop := forall s n,
+(* The frame and closure clauses for every kind of root (netlist, library, definition, port, cable,
+   wire, pin, instance), in every state reachable by editing calls: cloning changes no field of any
+   object that existed before the call - kind, all seven containers and their order, parents, wire
+   pins, pin wires, references, outer-pin tables, top instance, bundle attributes, data, namespace
+   tables (osame; reference sets are the documented exception: copies of instances register with
+   the definitions they reference) - and every containment link of an object created by the call
+   leads to an object created by the call (kclosed). *)
+Theorem C07_frame_and_closure : forall ops e,
+  let s := run ops init in
+  let s' := fst (fst (clone_any s e)) in
+  osame (next s) s s' /\ kclosed (next s) s'.
+Proof. exact clone_reachable. Qed.
+Print Assumptions C07_frame_and_closure.
+
+(* the same from the three start conditions, for any state *)
+Theorem C07_frame_and_closure_from : forall s e,
+  StartOK s -> CloneOK s (fst (fst (clone_any s e))).
+Proof. exact clone_any_ok. Qed.
+Print Assumptions C07_frame_and_closure_from.
+
+(* the statement in the shape it was first written down (netlist roots) *)
+Theorem C07_full : forall s n, StartOK s ->
   let r := fst (clone_netlist s n) in
-  snd r = None ->
   (forall x, x < next s ->
      (forall rl, kids (fst r) rl x = kids s rl x /\ par (fst r) rl x = par s rl x) /\
      wpins (fst r) x = wpins s x /\ ipwire (fst r) x = ipwire s x /\ iref (fst r) x = iref s x /\
      ipins (fst r) x = ipins s x /\ data (fst r) x = data s x) /\
   (forall x rl c, next s <= x -> In c (kids (fst r) rl x) -> next s <= c).
+Proof.
+  intros s n HS. destruct (clone_netlist_ok s n HS) as [O K]. cbn zeta. split.
+  - intros x Hx. split; [intro rl; split; [apply (os_kids _ _ _ O rl x Hx)|apply (os_par _ _ _ O rl x Hx)]|].
+    split; [apply (os_wpins _ _ _ O x Hx)|]. split; [apply (os_ipwire _ _ _ O x Hx)|]. split; [apply (os_iref _ _ _ O x Hx)|].
+    split; [apply (os_ipins _ _ _ O x Hx)|apply (os_data _ _ _ O x Hx)].
+  - intros x rl c Hx Hc. apply (K x rl c Hx Hc).
+Qed.
+Print Assumptions C07_full.
+
+(* non-vacuity: a netlist with a leaf cell, a top cell instantiating it through a wired outer pin and a
+   top instance; its clone is a second netlist whose links all stay inside the copy *)
+Example C07_sample :
+  let ops := [ ONew KNetlist None []; OCreate RLibs 0 None [] 0 None; OCreate RDefs 1 None [] 0 None;
+               OCreate RPorts 2 None [] 1 None; OCreate RDefs 1 None [] 0 None; OCreate RChildren 5 None [] 0 (Some 2);
+               OCreate RCables 5 None [] 1 None; OConnect 8 (POut 6 4) None; OSetTop 0 (TopDef 5) ] in
+  let s := run ops init in
+  let s' := fst (fst (clone_any s 0)) in
+  next s = 10 /\ snd (fst (clone_any s 0)) = None /\ snd (clone_any s 0) = 10 /\
+  kids s' RLibs 10 = [11] /\ top s' 10 = Some 19 /\ iref s' 18 = Some 12 /\ iref s' 19 = Some 15 /\
+  wpins s' 17 = [POut 18 14] /\ wpins s' 8 = [POut 6 4] /\ drefs s' 2 = [6].
+Proof. vm_compute. repeat split. Qed.
